@@ -332,6 +332,11 @@ func (prop) Generate(rng *core.Rand, tier string, emit func(string)) {
 	for _, l := range []string{"cf 0 0 0000 - 0.0.0", "cf 0 0 000 -;61 0.1.0", "cf 0 0 0000 -;61 3.1.0", "cf 0 0 0000 -;61 0.2.0", "cf 0 0 0000 -;41 0.1.0"} {
 		emit(l)
 	}
+	// certmagic's subject predicates against their byte-level models
+	nmr := rng.Fork()
+	for i := 0; i < n; i++ {
+		emit(genNM(nmr))
+	}
 	// malformed stream
 	for _, l := range []string{
 		"cfg", "cfg 4 0 0 - - - 0", "nop 1 2 3", "cfg 0 0 0 -:00000:1:0 - - 0", "cfg 4 0 0 -:00000:1:0 - - 2",
@@ -393,6 +398,13 @@ func init() {
 	// one site bound to two interfaces on the HTTPS port (upstream issue 3443): both need a redirect listener
 	mk([]string{"a.test"}, func(c *kase) {
 		c.servers = []server{{name: "s0", listen: []addr{{0, "10.1.1.1", 443, 443}, {0, "127.0.0.1", 443, 443}}, routes: []uroute{h(1)}}}
+	})
+	// a name on the skip list of one server and served (not skipped) by another: skip lists are per server
+	mk([]string{"a.test", "b.test"}, func(c *kase) {
+		c.servers = []server{
+			{name: "s0", listen: []addr{{0, "", 8443, 8443}}, skip: []int{1}, routes: []uroute{h(1), h(2)}},
+			{name: "s1", listen: []addr{{0, "", 443, 443}}, routes: []uroute{h(1)}},
+		}
 	})
 	// catch-all with TLS connection policies (on-demand shape)
 	mk([]string{"a.test"}, func(c *kase) {
